@@ -47,6 +47,7 @@ type Out struct {
 	ByKind      map[string]int `json:"by_kind"`
 	Schedules   []uint64       `json:"schedules"`
 	Overlaps    int            `json:"exec_overlapping_reprice"`
+	Isolated    int            `json:"tasks_compared_with_their_plan_run_alone"`
 	ExecCalls   int            `json:"exec_calls"`
 	Reprices    int            `json:"reprices"`
 	Rejected    int            `json:"rejected_schedules"`
@@ -64,6 +65,7 @@ type runResult struct {
 	viol      []Violation
 	res       simrt.Result
 	overlaps  int
+	isolated  int
 	execCalls int
 	reprices  int
 	rejected  int
@@ -114,6 +116,7 @@ func main() {
 		agg.Unknown += rr.unknown
 		agg.ByKind[rr.kind]++
 		agg.Overlaps += rr.overlaps
+		agg.Isolated += rr.isolated
 		agg.ExecCalls += rr.execCalls
 		agg.Reprices += rr.reprices
 		agg.Rejected += rr.rejected
